@@ -535,6 +535,8 @@ class HContainerInit(Handler):
                 neg = True
             if math.isnan(v):
                 neg = True
+            if math.isinf(v):
+                infeasible = infeasible or 'infinite_amount'      # (a capacity may be infinite, an amount may not)
             pb = R.per(s, b)
             amt = (v / pb) if pb else 0.0      # canonical
             total[s] = total.get(s, 0.0) + amt
